@@ -75,9 +75,9 @@ def argsOK : List Kind → List Tok → SymTab → Bool
 def opConforms (op : SOp) (env : SymTab) (assemblyOnly : Bool) : Bool :=
   argsOK (params op.cls) op.toks env &&
   (if op.cls = .OPCODE then
-     match op.toks with
-     | [.int v] => assemblyOnly || (match Enc.disassemble v false with | .ok _ => true | .error _ => false)
-     | _ => true
+     match opcodeWord op.toks env with
+     | some v => assemblyOnly || (match Enc.disassemble v false with | .ok _ => true | .error _ => false)
+     | none => true
    else true)
 
 end Sig
@@ -117,6 +117,8 @@ def instrCount (op : SOp) (st : CSettings) : Int :=
 def constsBefore (ops : List SOp) (i : Nat) : List (Str × Int) :=
   (ops.take i).foldl (fun acc op => match op.cls, op.toks with
     | .CONSTANT, [.sym s, .int v] => (s, v) :: acc
+    | .CONSTANT, [.sym s, .sym m] =>            -- the value of an earlier constant
+      (match constValue acc m with | some v => (s, v) :: acc | none => acc)
     | _, _ => acc) []
 
 /-- value of the code label / data label declared by operation `k` -/
